@@ -37,6 +37,8 @@ type deviant struct {
 	openFile func(fs *mem.FS, name string, flag int, perm hackpadfs.FileMode) (hackpadfs.File, error, bool)
 	stat     func(fs *mem.FS, name string) (hackpadfs.FileInfo, error, bool)
 	mapErr   func(op string, err error) error
+	// roWriteOK: Write on an open handle of a regular file that was opened read-only reports success
+	roWriteOK bool
 	// file-level hooks
 	read     func(f hackpadfs.File, p []byte) (int, error, bool)
 	write    func(f hackpadfs.File, p []byte) (int, error, bool)
@@ -60,7 +62,7 @@ func (d *devFS) OpenFile(name string, flag int, perm hackpadfs.FileMode) (hackpa
 	if d.d.openFile != nil {
 		if f, err, ok := d.d.openFile(d.FS, name, flag, perm); ok {
 			if f != nil {
-				f = &devFile{f, d.d}
+				f = &devFile{f, d.d, flag&(hackpadfs.FlagWriteOnly|hackpadfs.FlagReadWrite) == 0}
 			}
 			return f, err
 		}
@@ -69,7 +71,7 @@ func (d *devFS) OpenFile(name string, flag int, perm hackpadfs.FileMode) (hackpa
 	if err != nil {
 		return nil, d.e("open", err)
 	}
-	return &devFile{f, d.d}, nil
+	return &devFile{f, d.d, flag&(hackpadfs.FlagWriteOnly|hackpadfs.FlagReadWrite) == 0}, nil
 }
 func (d *devFS) Mkdir(name string, perm hackpadfs.FileMode) error {
 	if d.d.mkdir != nil {
@@ -131,7 +133,8 @@ func (d *devFS) Chtimes(name string, a, m time.Time) error {
 
 type devFile struct {
 	hackpadfs.File
-	d *deviant
+	d  *deviant
+	ro bool // opened without write access
 }
 
 func (f *devFile) Read(p []byte) (int, error) {
@@ -146,6 +149,11 @@ func (f *devFile) ReadAt(p []byte, off int64) (int, error) {
 	return hackpadfs.ReadAtFile(f.File, p, off)
 }
 func (f *devFile) Write(p []byte) (int, error) {
+	if f.d.roWriteOK && f.ro {
+		if info, err := f.File.Stat(); err == nil && !info.IsDir() {
+			return len(p), nil // (a closed handle's Stat fails: it keeps failing)
+		}
+	}
 	if f.d.write != nil {
 		if n, err, ok := f.d.write(f.File, p); ok {
 			return n, err
@@ -555,6 +563,8 @@ func catalogue() []*deviant {
 			}
 		}
 	}
+	// a handle opened read-only accepts Write (and says the bytes were written) / accepts Truncate
+	add(&deviant{name: "ro-handle-accepts-write", roWriteOK: true})
 	// the error paths of ONE operation carry an inner-namespace prefix (what a mount or sub layer does when it forgets to
 	// translate back); the all-operations variant below is also caught by the strict check of Stat's error alone
 	for _, only := range []string{"open", "mkdir", "mkdirall", "remove", "rename", "chtimes"} { // (no scenario makes Chmod fail)
